@@ -347,7 +347,12 @@ func (s *server) ModifyColumnFamilies(ctx context.Context, req *btapb.ModifyColu
 		tbl.rows.Ascend(func(r *btpb.Row) bool {
 			r, changed := scrubRow(r, keep)
 			if changed {
-				tbl.rows.ReplaceOrInsert(r)
+				if len(r.Families) == 0 {
+					// a row left without any cell no longer exists
+					tbl.rows.Delete(r.Key)
+				} else {
+					tbl.rows.ReplaceOrInsert(r)
+				}
 			}
 			return true
 		})
@@ -1544,8 +1549,8 @@ func (t *table) gc(now bigtable.Timestamp, done <-chan struct{}, force bool) {
 			}
 		}
 		if changed {
-			r, _ := scrubRow(r, t.cols())
-			t.rows.ReplaceOrInsert(r)
+			// (a row left without any cell is removed)
+			t.updateRow(r)
 		}
 		i++
 		if i%100 != 0 {
